@@ -652,10 +652,13 @@ func runRetry(e *Env) {
 		}
 	}
 
-	// parks only where the outcome of the attempt is already decided for the driver, so
-	// that the delivery-time rule of eff() stays valid
+	// The only park point used is the one right after exec has taken the response: there the
+	// outcome of the attempt is decided and the connection's receive loop is free again. A
+	// goroutine parked at exec.timedOut / exec.ctxDone has not closed call.timeout yet, so a
+	// late reply for it blocks the receive loop and with it every other reply on that
+	// connection, which would invalidate the delivery-time rule of eff().
 	if faultsOn {
-		k.DrawPlan([]string{"exec.gotResp", "exec.timedOut", "exec.ctxDone"}, 2, 10)
+		k.DrawPlan([]string{"exec.gotResp"}, 2, 12)
 	}
 
 	// ---- workload ----
@@ -727,7 +730,9 @@ func runRetry(e *Env) {
 				op.got = got
 				op.attemptsAPI = attempts
 				st.mu.Unlock()
-				cancel()
+				// the caller's context is deliberately NOT cancelled on return (a caller using
+				// context.Background() never does): whatever the driver still does for this
+				// query afterwards is its own doing. All contexts are cancelled at the end.
 				k.OpDone()
 				k.Rec("ret %s %s %q attempts=%d", token, ErrClass(err), got, attempts)
 				st.checkMisrouted(op)
@@ -871,6 +876,11 @@ func runRetry(e *Env) {
 	}
 
 	// ---- close ----
+	for _, op := range st.list {
+		if op.cancel != nil {
+			op.cancel()
+		}
+	}
 	closed := make(chan struct{})
 	go func() { sess.Close(); close(closed) }()
 	k.SettleUntil(30*time.Second, 20*time.Millisecond, func() { cl.Process(); deliverAll() }, func() bool {
@@ -921,7 +931,7 @@ func (st *rtState) history(op *rtOp) string {
 		if a.closed {
 			s += " conn-lost"
 		}
-		evs = append(evs, ev{a.step, 0, s})
+		evs = append(evs, ev{a.step, 1 << 30, s})
 	}
 	for i, c := range op.calls {
 		if c.attempt {
@@ -934,7 +944,7 @@ func (st *rtState) history(op *rtOp) string {
 		if evs[i].step != evs[j].step {
 			return evs[i].step < evs[j].step
 		}
-		return evs[i].ord > evs[j].ord // decisions of a step precede the request they cause
+		return evs[i].ord < evs[j].ord // decisions of a step precede the request they cause
 	})
 	for _, e := range evs {
 		fmt.Fprintf(&sb, "\n  @%d %s", e.step, e.s)
@@ -1068,11 +1078,11 @@ func (st *rtState) checkOp(op *rtOp) {
 		}
 	}
 	if late > 0 {
-		kind := "query"
+		kind, sig := "query", "attempt-after-result"
 		if pl.batch {
-			kind = "batch"
+			kind, sig = "batch", "attempt-after-result:batch"
 		}
-		st.viol(op, "attempt-after-result", "%s (%s): %d request(s) reached servers after the result had been returned to the caller at step %d", op.token, kind, late, op.ret)
+		st.viol(op, sig, "%s (%s): %d request(s) reached servers after the result had been returned to the caller at step %d", op.token, kind, late, op.ret)
 		return
 	}
 	// (3) a query not marked idempotent is never retried
@@ -1107,6 +1117,7 @@ func (st *rtState) checkOp(op *rtOp) {
 		st.checkSpecResult(op)
 		return
 	}
+	k.Probe("non-speculative-query-completed")
 	ambiguous := false
 	for _, a := range A {
 		if st.eff(a) == effAmbig {
@@ -1114,6 +1125,7 @@ func (st *rtState) checkOp(op *rtOp) {
 		}
 	}
 	if st.exact && !op.cancelFired && !ambiguous {
+		k.Probe("exact-model-compared")
 		st.exactWalk(op)
 		return
 	}
@@ -1178,8 +1190,14 @@ func (st *rtState) exactWalk(op *rtOp) {
 			return
 		}
 		if !pl.idempotent && st.armNI {
-			last(a, "non-idempotent-retried", "the query is not marked idempotent")
-			return
+			if len(A) > i+1 {
+				st.viol(op, "non-idempotent-retried", "%s: request #%d reached %s although the query is not marked idempotent", op.token, i+1, A[i+1].host)
+				return
+			}
+			if st.sameAsAttempt(op, a) {
+				return // not retried, the attempt's own outcome returned
+			}
+			// not retried, but the result is not the attempt's: judge it by the policy's decisions
 		}
 		// the policy's budget
 		if ci >= len(op.calls) || !op.calls[ci].attempt {
@@ -1208,6 +1226,11 @@ func (st *rtState) exactWalk(op *rtOp) {
 		ci++
 		switch {
 		case gc.typ == gocql.Retry:
+			if pl.rtKind == rtDowngrade && a.code == cqlspec.ErrWriteTimeout && ef == effErr && strings.Contains(a.detail, "received=0 wt=UNLOGGED_BATCH") {
+				// policy-internal, not part of C13: the doc comment says "if the operation is an
+				// UNLOGGED_BATCH and at least one replica acknowledged the write"
+				k.Probe("downgrading-policy-retried-unlogged-batch-with-zero-acks")
+			}
 		case gc.typ == gocql.RetryNextHost:
 			oi++
 			if oi >= len(O) {
